@@ -104,7 +104,9 @@ def add(run, tier):
                    {'x': list(items)}, 'array of %d' % n)
     # ---- objects: key spellings x value classes, then several properties (order, repeated key last wins)
     keys = [('a', lambda: at.PropIdentifier('a')), ('', lambda: at.String('""')), ('b c', lambda: at.String('"b c"')), ('0', lambda: at.String("'0'")),
-            ('a', lambda: at.String('"a"')), ('key', lambda: at.String('"key"'))]
+            ('a', lambda: at.String('"a"')), ('key', lambda: at.String('"key"')),
+            # words the language (and the extractor's own statement handling) knows: as keys they are plain strings
+            ('return', lambda: at.String('"return"')), ('var', lambda: at.PropIdentifier('var')), ('function', lambda: at.String('"function"'))]
     for (k, mk) in keys:
         for v in vals:
             decide('O-extract[object | %r: %r]' % (k, v), at.ES5Program([bind('assign', 'x', at.Object([at.Assign(left=mk(), op=':', right=Hole(v))]))]),
